@@ -6,9 +6,54 @@
 
 namespace refbind {
 
+// Code points assigned in Unicode 13.0 (data/ucd17/assigned_13.txt). ada's combining-mark, virama and Bidi tables
+// are the Unicode 13 ones and its Joining_Type lists are older still (known findings C06-table-*, established
+// code point by code point by the C06 check), so a host disagreement on an input containing a code point that
+// is newer than Unicode 13, or inside one of the joining-type runs found missing, is attributed to that root
+// cause by a narrow class suffix; every other host disagreement keeps its plain class and is reported.
+inline std::vector<std::pair<char32_t, char32_t>>& assigned13() { static std::vector<std::pair<char32_t, char32_t>> v; return v; }
+inline bool newer_than_13(char32_t c) {
+  auto& a = assigned13();
+  size_t lo = 0, hi = a.size();
+  while (lo < hi) { size_t mid = (lo + hi) / 2; if (a[mid].second < c) lo = mid + 1; else hi = mid; }
+  return !(lo < a.size() && a[lo].first <= c);
+}
+inline bool load_assigned13(const std::string& path) {
+  FILE* f = fopen(path.c_str(), "r");
+  if (!f) return false;
+  char line[256];
+  while (fgets(line, sizeof line, f)) {
+    if (line[0] == '#' || line[0] == '\n') continue;
+    unsigned a = 0, b = 0;
+    int n = sscanf(line, "%x..%x", &a, &b);
+    if (n == 1) b = a;
+    if (n >= 1) assigned13().push_back({char32_t(a), char32_t(b)});
+  }
+  fclose(f);
+  return !assigned13().empty();
+}
+// "" or ":idna-stale-table(U+XXXX)" for the first code point of the input in the stale-table scope
+inline std::string idna_stale_scope(std::string_view input) {
+  auto cps = refidna::utf8_decode(input);
+  if (!cps) return "";
+  static const char32_t jt[][2] = {  // Joining_Type runs missing from ada's hard-coded lists (C06-table-joining), pre-Unicode-13 part
+      {0x0767, 0x077F}, {0x07CA, 0x07EA}, {0x0840, 0x084F}, {0x0856, 0x0858}, {0x0860, 0x0860}, {0x0862, 0x0865}, {0x0867, 0x086A},
+      {0x08A1, 0x08A1}, {0x08AE, 0x08C8}, {0x1878, 0x1878}, {0x10AC0, 0x10AC5}};
+  bool has_joiner = false;
+  for (char32_t c : *cps) if (c == 0x200C || c == 0x200D) has_joiner = true;
+  for (char32_t c : *cps) {
+    if (c < 0x80) continue;
+    bool hit = newer_than_13(c);
+    if (!hit && has_joiner) for (auto& r : jt) if (c >= r[0] && c <= r[1]) hit = true;
+    if (hit) { char b[48]; snprintf(b, sizeof b, ":idna-stale-table(U+%04X)", unsigned(c)); return b; }
+  }
+  return "";
+}
+
 inline bool init(const std::string& datadir) {
   std::string d = datadir.empty() ? std::string("/verif/data") : datadir;
   if (!refidna::load(d + "/ucd17")) return false;
+  if (!load_assigned13(d + "/ucd17/assigned_13.txt")) return false;
   // URL Standard "domain to ASCII" (beStrict=false): ASCII carve-out, UTS46 ToASCII with the
   // Standard's flags; refurl applies empty/forbidden/ends-in-a-number itself.
   refurl::set_domain_to_ascii([](std::string_view s) { return refidna::url_domain_to_ascii(s, false); });
